@@ -17,7 +17,12 @@ ALL_LP = G.CF_KINDS + G.LIN_KINDS
 
 def _gen(seed, index, profile):
     rng = random.Random("%s/%s/%s" % (seed, profile.get("name", ""), index))
-    return rng, G.Gen(rng, profile)
+    g = G.Gen(rng, profile)
+    # a fifth of the contextual scenarios pass integral contexts as *integer-typed* containers (own stream, so that
+    # the scenario stream stays what it was)
+    if g.contextual and random.Random("%s/int/%s/%s" % (seed, profile.get("name", ""), index)).random() < 0.2:
+        g.cfg["int_ctx"] = True
+    return rng, g
 
 
 def _tol(cfg):
@@ -93,7 +98,18 @@ def gen_c07(seed, index):
     if g.contextual and rng.random() < 0.35:
         g.d = rng.choice([1, 2, 3])
         g.stored = []
-    d, r, c = g.batch(rng.choice([1, 2, 4, 7, 12]))
+    same_shape = g.contextual and g.fitted and len(g.stored) >= 1 and rng.random() < 0.4
+    if same_shape:
+        # D has exactly the shape of the history it replaces, and the bandit answered a query on the old history
+        # (anything keyed by the size or shape of the history must not survive the call)
+        n_old = len(g.stored)
+        g.ops = []
+        g.op_query(rng.choice(["pexp", "pred"]))
+        scn["ops"] = scn["ops"] + g.ops
+        d, r, c = g.batch(n_old)
+        d, r, c = d[:n_old], r[:n_old], c[:n_old]
+    else:
+        d, r, c = g.batch(rng.choice([1, 2, 4, 7, 12]))
     g.stored = list(c or [])
     g.ops = []
     for _ in range(rng.randint(1, 3)):
